@@ -190,6 +190,11 @@ class Handlers(UserDict):
             copied.clear()
         return copied
 
+    def __copy__(self) -> Handlers:
+        # NOTE: UserDict.__copy__() would share this instance's resolver,
+        #   which is bound to this instance's data, with the copy.
+        return self.copy()
+
 
 def _best_match(media_type: str, all_media_types: Sequence[str]) -> Optional[str]:
     result = None
